@@ -3,7 +3,7 @@
 \* comment, CDATA} at the top level of a document and under elements (also under an HTML iframe,
 \* and as a detached element) against :root, :empty, :first/last/only-child,
 \* :first/last/only-of-type, alone, negated and combined with a type selector.
-EXTENDS CssDecl, TLC, Json, SequencesExt
+EXTENDS Ir, TLC, Json, SequencesExt
 CONSTANTS MaxNodes
 VARIABLE doc
 
@@ -35,4 +35,7 @@ Env == [nsmap |-> <<>>, scope |-> RootOf(doc)]
 Rel1(s) == {i \in Elems(doc) : Matches(doc, Env, <<Pool[s]>>, i)}
 Res == [s \in 1..Len(Pool) |-> MaskUpTo(Rel1(s), Len(doc.parent))]
 Emit == PrintT(ToJson([doc |-> doc, res |-> Res]))
+\* T-AlgoEqDecl: the implementation-shaped matcher over the compiled IR agrees with the declarative semantics
+AlgoEqDecl == \A s \in 1..Len(Pool) : \A i \in Elems(doc) :
+                 AlgoMatches(doc, Env, <<Pool[s]>>, i) = Matches(doc, Env, <<Pool[s]>>, i)
 =============================================================================
